@@ -126,8 +126,11 @@ func (c *BlockCache) Add(block *types.Block) {
 				c.cache[i].Blocks[block.Hash()] = block
 				break
 			} else if c.cache[i].Height > height { // not exist
-				tmp := append(c.cache[:i+1], bsh)
-				c.cache = append(tmp, c.cache[i+1:]...)
+				// insert before the first larger height. Build a new slice so that the items behind are not overwritten
+				newCache := make([]*blocksSameHeight, 0, len(c.cache)+1)
+				newCache = append(newCache, c.cache[:i]...)
+				newCache = append(newCache, bsh)
+				c.cache = append(newCache, c.cache[i:]...)
 				break
 			}
 		}
